@@ -49,6 +49,11 @@ def run(tier: str) -> int:
     from . import pestvm  # noqa: PLC0415
 
     pestvm.run(rep, C.import_pest(), thorough)
+    # ... and in the other direction on real grammars: recorded parses of the suite's and the bundled grammars validated by TLC
+    # as behaviours of the machine (PestVMTrace.tla)
+    from . import vmtrace  # noqa: PLC0415
+
+    vmtrace.run(rep, C.import_pest(), thorough)
     rep.rule = (
         "grammars: r = { SETUP ~ MID ~ PROBE }, MID = each of the 11 stack terminals (alone: family stack1, complete, printed with and without redundant parentheses; in two-element sequences: family stack) "
         "in each of 13 backtracking contexts, 3 setups x 4 probes; family stackdeep: an inner construct that commits stack changes nested in an outer alternative / optional / predicate that then fails, "
